@@ -64,11 +64,15 @@ class _HTTP(object):
         return SS.FakeResponse(200, {"user": "x"})
 
 
-def auth_paths(blocks):
-    """blocks: list of [kind index, enabled index] (concrete slice)."""
+def auth_paths(blocks, bad_request=False):
+    """blocks: list of [kind index, enabled index] (concrete slice).
+    bad_request: the framed request does not decode (a byte of the batch count is damaged): whatever the
+    certificate, nothing is evaluated; a certificate failure is still reported as such."""
     blocks = [tuple(b) for b in blocks]
     nb = len(blocks)
     reqb = _request_bytes()
+    if bad_request:
+        reqb = reqb[:11] + bytes([0x05]) + reqb[12:]        # type byte of the request header: not a structure
 
     def h(cert_sel: int, tls_auth: bool, ncn: int, cn0: str, cn1: str,
           url0: bool, users0: int, groups0: int, url1: bool, users1: int, groups1: int,
@@ -140,6 +144,12 @@ def auth_paths(blocks):
         if len(conn.sent) != 1:
             return False
         out = bytes(conn.sent[0])
+        if bad_request:
+            if seen or store.log or [snapshot(o) for o in store.objs] != before:
+                return False
+            if not cert_ok:
+                return _envelope_ok(out, (1, 0), 1) and _reason_of(out) == RR.AUTHENTICATION_NOT_SUCCESSFUL.value
+            return _envelope_ok(out, (1, 0), 1) and _reason_of(out) == RR.INVALID_MESSAGE.value
         if identity is None:
             if seen:
                 return False                                   # engine entered without an identity
@@ -169,6 +179,9 @@ def conditions(tier):
     if thorough:
         core = [(0, 0), (0, 1), (2, 0)]
         slices += [[a, b, c] for a in core for b in core for c in core]
+    out.append(Cond("auth-undecodable-request", "auth_paths", dict(blocks=[], bad_request=True),
+                    bounds="no plugin blocks; the framed request does not decode; certificate shape, TLS-auth flag and "
+                           "common names symbolic as elsewhere", timeout=600, part="auth"))
     for sl in slices:
         name = "auth-" + ("none" if not sl else "+".join("%s:%s" % (KINDS[k].split(":")[1], ENABLED[e]) for k, e in sl))
         out.append(Cond(name, "auth_paths", dict(blocks=[list(b) for b in sl]),
